@@ -242,6 +242,12 @@ func (lex *Lexer) emit(typ token.Type, text string) []*token.Token {
 }
 
 func (lex *Lexer) emitText(typ token.Type) []*token.Token {
+	if lex.scanner.TokenTooLarge() {
+		// The scanner stopped because its window is full, not because the
+		// token ended.  Emitting the text would cut a long comment, symbol or
+		// hash-bang line in two and hand the tail to the parser as code.
+		return lex.errorf("token exceeds maximum allowable size")
+	}
 	tok := lex.scanner.EmitToken(typ)
 	tok.PrecedingNewlines = lex.precedingNewlines
 	tok.PrecedingSpaces = lex.precedingSpaces
@@ -407,18 +413,19 @@ func trailingBackslashes(s string) int {
 }
 
 func (lex *Lexer) skipWhitespace() {
-	if lex.scanner.AcceptSeqSpace() > 0 {
+	lex.precedingNewlines = 0
+	lex.precedingSpaces = 0
+	// A run of white space longer than the scanner's window arrives in
+	// several pieces; it is still one separator.
+	for lex.scanner.AcceptSeqSpace() > 0 {
 		text := lex.scanner.Text()
-		lex.precedingNewlines = strings.Count(text, "\n")
+		lex.precedingNewlines += strings.Count(text, "\n")
 		if lex.precedingNewlines == 0 {
-			lex.precedingSpaces = len(text)
+			lex.precedingSpaces += len(text)
 		} else {
 			lex.precedingSpaces = 0
 		}
 		lex.scanner.Ignore()
-	} else {
-		lex.precedingNewlines = 0
-		lex.precedingSpaces = 0
 	}
 }
 
